@@ -1,7 +1,7 @@
 (* C04 -- Monte-Carlo scores are the permutation-sampling estimator of the Shapley value.  Statements only. *)
 From Coq Require Import List Arith ZArith QArith Bool Permutation.
 From DS Require Import Util.SumQ Spec.Shapley Spec.Dnf Model.Provenance Model.Bruteforce Model.MonteCarlo
-     Proofs.ShapleyAxioms Proofs.MonteCarloProofs.
+     Proofs.ShapleyAxioms Proofs.MonteCarloProofs Proofs.PermCount.
 Import ListNotations.
 Local Open Scope Q_scope.
 
@@ -43,17 +43,29 @@ Proof.
   - vm_compute. discriminate.
 Qed.
 
-(* Full statement of the last clause, kept visible (not asserted here): when every permutation is sampled equally
-   often the estimator is the exact Shapley value of the game whose empty coalition is worth the null score.
-   It needs the counting lemma sum_{pi in perms} g(before_pi(i)) = sum_S |S|!(n-1-|S|)! g(S); until that is proved
-   the clause is tied to the code by the correspondence run only (scripted generator yielding all permutations). *)
-Definition C04_exact_when_uniform_full_statement : Prop :=
-  forall P n v clock c p, mc_steps P = 0%nat -> Qle_bool (mc_timeout P) 0 = true -> (0 < c)%nat -> (p < n)%nat ->
-    v (allfalse n) == mc_null P ->
-    exists scores, montecarlo P n v clock (concat (repeat (perms (seq 0 n)) c)) = Some scores /\
-                   nth p scores 0 == shapley n v p.
+(* the counting lemma: over all permutations of a duplicate-free list l containing p, the players before p form
+   the set S (not containing p) exactly |S|! (|l|-1-|S|)! times -- for every permutation-invariant g *)
+Theorem C04_before_count : forall (l : list nat) (p : nat) (g : list nat -> Q), inv g -> NoDup l -> In p l ->
+  sumQ (fun pi => g (before pi p)) (perms l)
+  == sumQ (fun sb => qf (length sb) * qf (length l - 1 - length sb) * g sb) (sublists (remove Nat.eq_dec p l)).
+Proof. exact before_count. Qed.
+
+(* whenever every permutation is sampled equally often (c copies of all n! permutations, drawn in any order), with
+   truncation and timeout disabled and the coalition of no units worth the null score (see F10), the estimator IS
+   the exact Shapley value *)
+Theorem C04_mc_exact_when_uniform : forall P n v clock c p sample,
+  mc_steps P = 0%nat -> Qle_bool (mc_timeout P) 0 = true -> (0 < c)%nat -> (p < n)%nat -> v (allfalse n) == mc_null P ->
+  Permutation sample (concat (repeat (perms (seq 0 n)) c)) ->
+  exists scores, montecarlo P n v clock sample = Some scores /\ nth p scores 0 == shapley n v p.
+Proof. exact mc_exact_when_uniform. Qed.
+
+Theorem C04_number_of_permutations : forall l, length (perms l) = fact (length l).
+Proof. exact perms_count. Qed.
 
 Print Assumptions C04_mc_is_marginal_average.
 Print Assumptions C04_one_permutation.
 Print Assumptions C04_mc_efficiency.
 Print Assumptions C04_refuted_F10.
+Print Assumptions C04_before_count.
+Print Assumptions C04_mc_exact_when_uniform.
+Print Assumptions C04_number_of_permutations.
